@@ -481,6 +481,10 @@ def run_with_crash(base, work, op, crash_at):
 
 
 def main():
+    # a container whose length fields were overwritten can make a reader ask for terabytes: let that surface as a
+    # MemoryError of the scenario (an observation) instead of the kernel killing the whole driver
+    import resource
+    resource.setrlimit(resource.RLIMIT_AS, (3 << 30, 3 << 30))
     ap = argparse.ArgumentParser()
     ap.add_argument("--out"); ap.add_argument("--seed", type=int, default=0); ap.add_argument("--tier", default="quick")
     ap.add_argument("--in", dest="inp")
@@ -509,18 +513,41 @@ def main():
             vr.rightNow = 1000000.0 + 5000 * sn
             base = tempfile.mkdtemp(prefix="base", dir=work)
             ss = new_server(base)
-            setup(ss)
+            try:
+                setup(ss)
+            except Exception as e:      # building the state the operation starts from (uploads, writes, leases: no crash) raised
+                import traceback
+                traces.append({"consts": {"op": kind, "scenario": sn, "bufmode": bufmode, "phase": "setup"}, "events": [],
+                               "exception": "%s: %s" % (type(e).__name__, str(e)[:200]),
+                               "where": traceback.format_exc().strip().splitlines()[-3].strip()[:200]})
+                shutil.rmtree(base, ignore_errors=True)
+                continue
             for dc in vr.getDelayedCalls():
                 dc.cancel()
             del ss
             t_op = vr.rightNow
             fs0 = snapshot(base)
-            steps_full, obs_full, completed = run_with_crash(base, work, op, None)
+            try:
+                steps_full, obs_full, completed = run_with_crash(base, work, op, None)
+            except Exception as e:      # the operation (or the restart after it) raised without any crash injected
+                import traceback
+                traces.append({"consts": {"op": kind, "scenario": sn, "bufmode": bufmode}, "events": [],
+                               "exception": "%s: %s" % (type(e).__name__, str(e)[:200]),
+                               "where": traceback.format_exc().strip().splitlines()[-3].strip()[:200]})
+                shutil.rmtree(base, ignore_errors=True)
+                continue
             assert completed
             n = len(steps_full)
             for i in range(0, n + 1):
                 vr.rightNow = t_op
-                steps, obs, completed = run_with_crash(base, work, op, i)
+                try:
+                    steps, obs, completed = run_with_crash(base, work, op, i)
+                except Exception as e:  # the restart after a crash at step i raised
+                    import traceback
+                    traces.append({"consts": {"op": kind, "scenario": sn, "bufmode": bufmode, "crash_at": i}, "events": [],
+                                   "exception": "%s: %s" % (type(e).__name__, str(e)[:200]),
+                                   "where": traceback.format_exc().strip().splitlines()[-3].strip()[:200]})
+                    continue
                 if steps != steps_full[:i]:
                     raise SystemExit("non-deterministic step sequence in %s at %d" % (kind, i))
                 traces.append({"consts": {"op": kind, "scenario": sn, "lease_only": lease_only, "targets": targets, "paths": PATHS,
